@@ -5,11 +5,13 @@ package ntlm
 import (
 	"encoding/base64"
 	"errors"
+	"hash"
 	"strconv"
 	"time"
 
 	"github.com/m7913d/go-ntlm/ntlm"
 	"github.com/patrickmn/go-cache"
+	"golang.org/x/crypto/md4"
 )
 
 //vp:all stub (*encoding/base64.Encoding).DecodeString = vpB64Decode
@@ -24,6 +26,7 @@ import (
 //vp:all model (*github.com/patrickmn/go-cache.cache).Set = vpCacheSet
 //vp:all model (*github.com/patrickmn/go-cache.cache).Delete = vpCacheDelete
 //vp:all stub github.com/m7913d/go-ntlm/ntlm.CreateServerSession = vpCreateServerSession
+//vp:all model golang.org/x/crypto/md4.New = vpmMD4New
 //vp:all model (*github.com/m7913d/go-ntlm/ntlm.V2Session).fetchResponseKeys = vpmCryptoFails
 //vp:all model (*github.com/m7913d/go-ntlm/ntlm.V2ServerSession).computeExpectedResponses = vpmCryptoFails2
 
@@ -97,6 +100,7 @@ type vpSession struct {
 	// password from SetUserInfo) at the FIRST ProcessAuthenticateMessage of a session and keeps it
 	keyCached      bool
 	keyUser, keyPw string
+	keyDomain      string // the domain that went into the key: the one the first authenticate message names
 	// a session that never generated a challenge verifies against the EMPTY server challenge (go-ntlm
 	// does not check that a negotiate was processed)
 	challenged bool
@@ -182,12 +186,15 @@ func (s *vpSession) ProcessAuthenticateMessage(am *ntlm.AuthenticateMessage) err
 	if !s.keyCached {
 		s.keyCached = true
 		s.keyUser, s.keyPw = am.UserName.String(), s.pw
+		s.keyDomain = am.DomainName.String()
 	}
 	// branch-free: the proof matches iff it was made under the cached key's user name and password
 	sameUser := vpOr(vpAnd(vpProofUserSel == 0, s.keyUser == vpMsgUser), vpOr(vpAnd(vpProofUserSel == 1, s.keyUser == "ab"), vpAnd(vpProofUserSel == 2, s.keyUser == "ef")))
 	// the client computed its proof against the challenge of server session vpClientSess, or against the
 	// empty challenge (vpClientSess == -1)
 	rightChallenge := vpOr(vpAnd(s.challenged, s.id == vpClientSess), vpAnd(!s.challenged, vpClientSess == -1))
+	// the client derives its key with the domain its own message names
+	sameUser = vpAnd(sameUser, s.keyDomain == am.DomainName.String())
 	ok := vpAnd(sameUser, vpAnd(vpPwId(s.keyPw) == vpProofPwId, rightChallenge))
 	// go-ntlm can panic in here: before it compares anything (an authenticate message in the short layout
 	// has no session-key field, which ProcessAuthenticateMessage dereferences first) or while it derives
@@ -200,6 +207,58 @@ func (s *vpSession) ProcessAuthenticateMessage(am *ntlm.AuthenticateMessage) err
 	}
 	return errors.New("Could not authenticate")
 }
+
+// SetNTHash (go-ntlm as read): the response key is derived AT ONCE, from the NT hash given and the user
+// and domain that SetUserInfo stored; fetchResponseKeys then finds a key and returns early, so the user and
+// domain of the authenticate message no longer enter it.
+func (s *vpSession) SetNTHash(h []byte) {
+	s.keyCached = true
+	s.keyUser, s.keyDomain = s.user, ""
+	s.keyPw = vpPwOfNTHash(h)
+}
+
+// vpNTHash: the NT hash of a password (MD4 over its UTF-16LE form): natively the real one, symbolically the
+// digest contract of the prelude (deterministic, collision-free).
+func vpNTHash(pw string) []byte {
+	enc := make([]byte, 0, 2*len(pw))
+	for i := 0; i < len(pw); i++ {
+		enc = append(enc, pw[i], 0) // the passwords of vpDB are ASCII
+	}
+	if vpSymbolic() {
+		return vpMD4Of(enc)
+	}
+	h := md4.New()
+	h.Write(enc)
+	return h.Sum(nil)
+}
+
+func vpMD4Of(data []byte) []byte {
+	i := vpDigestIndex(data)
+	out := make([]byte, 16)
+	out[0], out[1], out[15] = 0x44, byte(i), byte(i>>8)
+	return out
+}
+
+// vpPwOfNTHash: which of the passwords around a hash belongs to ("?" for none of them).
+func vpPwOfNTHash(h []byte) string {
+	for _, pw := range []string{"", "pw-ab", "pw-ef", "p$w"} {
+		if vpEqBytes(h, vpNTHash(pw)) {
+			return pw
+		}
+	}
+	return "?"
+}
+
+// golang.org/x/crypto/md4 under the digest contract (symbolic side only).
+type vpMD4 struct{ buf []byte }
+
+func (m *vpMD4) Write(p []byte) (int, error) { m.buf = append(m.buf, p...); return len(p), nil }
+func (m *vpMD4) Sum(b []byte) []byte         { return append(b, vpMD4Of(m.buf)...) }
+func (m *vpMD4) Reset()                      { m.buf = nil }
+func (m *vpMD4) Size() int                   { return 16 }
+func (m *vpMD4) BlockSize() int              { return 64 }
+func vpmMD4New() hash.Hash                   { return &vpMD4{} }
+
 func (s *vpSession) GetSessionData() *ntlm.SessionData          { return nil }
 func (s *vpSession) Version() int                               { return 2 }
 func (s *vpSession) Seal(m []byte) ([]byte, []byte, error)      { return nil, nil, nil }
@@ -227,6 +286,11 @@ func vpDesc(n, off int) []byte { return append(append(vpLE16b(n), vpLE16b(n)...)
 func vpAuthenticateMsg(user16 []byte) []byte { return vpAuthenticateMsgTagged(user16, 0) }
 
 func vpAuthenticateMsgTagged(user16 []byte, tag byte) []byte {
+	return vpAuthenticateMsgFull(user16, nil, tag)
+}
+
+// vpAuthenticateMsgFull: also with a domain name (UTF-16LE), as a client that is told "CORP\\user" sends it.
+func vpAuthenticateMsgFull(user16, domain16 []byte, tag byte) []byte {
 	const hdr = 88 // 8 sig + 4 type + 6 descriptors*8 + 4 flags + 8 version + 16 MIC
 	lm := make([]byte, 24)
 	lm[0] = tag
@@ -238,7 +302,8 @@ func vpAuthenticateMsgTagged(user16 []byte, tag byte) []byte {
 	off += len(lm)
 	m = append(m, vpDesc(len(nt), off)...)
 	off += len(nt)
-	m = append(m, vpDesc(0, off)...) // domain
+	m = append(m, vpDesc(len(domain16), off)...) // domain
+	off += len(domain16)
 	m = append(m, vpDesc(len(user16), off)...)
 	off += len(user16)
 	m = append(m, vpDesc(0, off)...) // workstation
@@ -249,6 +314,7 @@ func vpAuthenticateMsgTagged(user16 []byte, tag byte) []byte {
 	}
 	m = append(m, lm...)
 	m = append(m, nt...)
+	m = append(m, domain16...)
 	m = append(m, user16...)
 	return m
 }
